@@ -200,22 +200,30 @@ pub fn b_ctor(which: u8) {
     let cols = nd::usize_();
     let rows = nd::usize_();
     let len = nd::usize_();
-    nd::assume(len <= 4096);
     let one_zero = (cols == 0) != (rows == 0);
     let prod = cols.checked_mul(rows);
-    let mut buf = vec![0u8; len];
     let bad = match which {
         0 | 1 => one_zero || prod.is_none(),
         2 => one_zero || prod != Some(len),
         _ => one_zero || prod.map_or(true, |p| p > len),
     };
     nd::assume(bad);
+    if len <= 4096 {
+        ctor_case::<u8>(which, cols, rows, vec![0u8; len]);
+    } else {
+        // a buffer this long exists only for zero-sized elements
+        ctor_case::<()>(which, cols, rows, vec![(); len]);
+    }
+    returned!();
+}
+
+fn ctor_case<T: Default + Clone>(which: u8, cols: usize, rows: usize, mut buf: Vec<T>) {
     match which {
         0 => {
-            let _t: TooDee<u8> = TooDee::new(cols, rows);
+            let _t: TooDee<T> = TooDee::new(cols, rows);
         }
         1 => {
-            let _t: TooDee<u8> = TooDee::init(cols, rows, 1u8);
+            let _t: TooDee<T> = TooDee::init(cols, rows, T::default());
         }
         2 => {
             let _t = TooDee::from_vec(cols, rows, buf);
@@ -227,7 +235,6 @@ pub fn b_ctor(which: u8) {
             let _v = TooDeeViewMut::new(cols, rows, &mut buf);
         }
     }
-    returned!();
 }
 
 // ------------------------------------------------------------------------------------------
